@@ -2,6 +2,7 @@ package rules
 
 import (
 	"go/token"
+	"go/types"
 	"regexp"
 	"strings"
 	"time"
@@ -236,7 +237,7 @@ func (e *Env) globalInitConsts(g *ssa.Global) []string {
 
 func c06Glob(e *Env) {
 	r := e.R
-	r.Rule("C06.glob-injection", "VF", "DAG-derived text reaching filepath.Glob is escaped", 3)
+	r.Rule("C06.glob-injection", "VF", "DAG-derived text reaching filepath.Glob is escaped", 1)
 	sp := e.P.Pkg(jsondbRel)
 	tr := &ir.Tracer{C: e.C, Through: ir.StringThrough, Descend: e.repoDescend,
 		Sanitizer: func(c *ssa.Call) bool { return e.escapedArg(c) != nil },
@@ -412,12 +413,17 @@ func c06Retention(e *Env) {
 		okBefore, okSign := false, false
 		for _, l := range lits {
 			if l.Kind == "val" && l.Pol {
-				if c, ok := l.V.(*ssa.Call); ok && ir.IsCallTo(&c.Call, "(time.Time).Before") {
-					// receiver: ModTime() of the file; argument: time.Now().AddDate(0,0,-days)
-					if rc, ok := ir.Resolve(c.Call.Args[0]).(*ssa.Call); ok && rc.Call.IsInvoke() && rc.Call.Method.Name() == "ModTime" {
+				if c, ok := l.V.(*ssa.Call); ok && ir.IsCallTo(&c.Call, "(time.Time).Before", "(time.Time).After") {
+					// modTime.Before(cutoff), or the same thing written cutoff.After(modTime):
+					// the file's ModTime() on the older side, time.Now().AddDate(0,0,-days) on the other
+					older, bound := c.Call.Args[0], c.Call.Args[1]
+					if ir.IsCallTo(&c.Call, "(time.Time).After") {
+						older, bound = bound, older
+					}
+					if rc, ok := ir.Resolve(older).(*ssa.Call); ok && rc.Call.IsInvoke() && rc.Call.Method.Name() == "ModTime" {
 						okBefore = true
 					}
-					if ad, ok := ir.Resolve(c.Call.Args[1]).(*ssa.Call); ok && ir.IsCallTo(&ad.Call, "(time.Time).AddDate") {
+					if ad, ok := ir.Resolve(bound).(*ssa.Call); ok && ir.IsCallTo(&ad.Call, "(time.Time).AddDate") {
 						y, _ := ir.ConstInt(ad.Call.Args[1])
 						m, _ := ir.ConstInt(ad.Call.Args[2])
 						if u, ok := ir.Resolve(ad.Call.Args[3]).(*ssa.UnOp); ok && u.Op == token.SUB && ir.Resolve(u.X) == days && y == 0 && m == 0 {
@@ -474,12 +480,35 @@ func c06ReqID(e *Env) {
 			n++
 			lits := e.DCS(rt)
 			okEq, okNE := false, false
-			for _, l := range lits {
-				if l.Kind == "cmp" && l.Op == token.EQL {
-					if (e.IsFieldRead(l.X, nil, "RequestID") && ir.Resolve(l.Y) == id) || (e.IsFieldRead(l.Y, nil, "RequestID") && ir.Resolve(l.X) == id) {
-						okEq = true
+			hasEq := func(ls []ir.NLit) bool {
+				for _, l := range ls {
+					if l.Kind == "cmp" && l.Op == token.EQL {
+						if (e.IsFieldRead(l.X, nil, "RequestID") && ir.Resolve(l.Y) == id) || (e.IsFieldRead(l.Y, nil, "RequestID") && ir.Resolve(l.X) == id) {
+							return true
+						}
 					}
 				}
+				return false
+			}
+			okEq = hasEq(lits)
+			if !okEq {
+				// the answer kept in a variable (`found = &StatusFile{...}` inside the walk, returned
+				// after it): every record the variable can hold was built under the equality
+				all, nLeaf := true, 0
+				for _, leaf := range phiLeaves(rt.Results[0]) {
+					lv := ir.Resolve(leaf)
+					if ir.IsNilConst(lv) {
+						continue
+					}
+					nLeaf++
+					in2, isIn := lv.(ssa.Instruction)
+					if !isIn || in2.Block() == nil || !hasEq(e.DCS(in2)) {
+						all = false
+					}
+				}
+				okEq = all && nLeaf > 0
+			}
+			for _, l := range lits {
 				if l.Kind == "cmp" && l.Op == token.NEQ && ir.Resolve(l.X) == id {
 					if s, ok := ir.ConstString(l.Y); ok && s == "" {
 						okNE = true
@@ -515,31 +544,55 @@ func c06NewestFirst(e *Env) {
 			}
 		}
 	}
-	var fn *ssa.Function
+	// the sort: sort.Slice(files, less) with a comparator closure, or sort.Sort(T(files))
+	// with T's Less method - in both cases a function of two indices that calls the
+	// sort-key function
+	type sorter struct {
+		site   ssa.CallInstruction
+		less   *ssa.Function
+		sorted ssa.Value
+	}
+	callsKey := func(f *ssa.Function) bool {
+		return f != nil && len(ir.CallsIn(f, func(c *ssa.CallCommon) bool { return tsFn != nil && c.StaticCallee() == tsFn })) > 0
+	}
+	var sorters []sorter
 	for _, f := range e.RepoFuncsSorted() {
-		if sp == nil || f.Package() != sp || f.Parent() != nil {
+		if sp == nil || f.Package() != sp || f.Parent() != nil || f.Synthetic != "" {
 			continue
 		}
-		for _, ci := range ir.CallsIn(f, func(c *ssa.CallCommon) bool { return ir.IsCallTo(c, "sort.Slice", "sort.SliceStable") }) {
-			if mc, ok := ci.Common().Args[1].(*ssa.MakeClosure); ok {
-				if len(ir.CallsIn(mc.Fn.(*ssa.Function), func(c *ssa.CallCommon) bool { return tsFn != nil && c.StaticCallee() == tsFn })) > 0 {
-					fn = f
+		for _, ci := range ir.CallsIn(f, func(c *ssa.CallCommon) bool {
+			return ir.IsCallTo(c, "sort.Slice", "sort.SliceStable", "sort.Sort", "sort.Stable")
+		}) {
+			a0 := ir.Resolve(ci.Common().Args[0])
+			mi, isMI := a0.(*ssa.MakeInterface)
+			if len(ci.Common().Args) == 2 {
+				if mc, ok := ci.Common().Args[1].(*ssa.MakeClosure); ok && callsKey(mc.Fn.(*ssa.Function)) {
+					sv := a0
+					if isMI {
+						sv = ir.Resolve(mi.X)
+					}
+					sorters = append(sorters, sorter{ci, mc.Fn.(*ssa.Function), sv})
+				}
+				continue
+			}
+			if !isMI {
+				continue
+			}
+			for _, g := range e.RepoFuncsSorted() {
+				if g.Name() == "Less" && g.Synthetic == "" && g.Signature.Recv() != nil && types.Identical(g.Signature.Recv().Type(), mi.X.Type()) && callsKey(g) {
+					sorters = append(sorters, sorter{ci, g, ir.Resolve(mi.X)})
 				}
 			}
 		}
 	}
-	if fn == nil {
-		r.Unknown("latest-N selection: the function sorting run files by their time key", "-", "no sort.Slice whose comparator calls the sort-key function")
+	if len(sorters) == 0 {
+		r.Unknown("latest-N selection: the function sorting run files by their time key", "-", "no sort.Slice / sort.Sort whose comparator calls the sort-key function")
 		return
 	}
-	// comparator closure passed to sort.Slice
+	fn := sorters[0].site.Parent()
 	okCmp := false
-	for _, ci := range ir.CallsIn(fn, func(c *ssa.CallCommon) bool { return ir.IsCallTo(c, "sort.Slice", "sort.SliceStable") }) {
-		mc, ok := ci.Common().Args[1].(*ssa.MakeClosure)
-		if !ok {
-			continue
-		}
-		less := mc.Fn.(*ssa.Function)
+	for _, so := range sorters {
+		less := so.less
 		for _, b := range less.Blocks {
 			for _, in := range b.Instrs {
 				rt, ok := in.(*ssa.Return)
@@ -547,17 +600,18 @@ func c06NewestFirst(e *Env) {
 					continue
 				}
 				n := ir.Normalize(ir.Lit{Cond: rt.Results[0], Pol: true})
-				// key(files[j]) < key(files[i])   (i.e. key(i) > key(j))
+				// key(files[j]) < key(files[i])   (i.e. key(i) > key(j)); i, j are the last two parameters
 				if n.Kind == "cmp" && n.Op == token.LSS {
 					xi, xok := keyIndex(n.X, tsFn, less)
 					yi, yok := keyIndex(n.Y, tsFn, less)
-					if xok && yok && xi == 1 && yi == 0 {
+					np := len(less.Params)
+					if xok && yok && xi == np-1 && yi == np-2 {
 						okCmp = true
 					}
 				}
 			}
 		}
-		r.Check(okCmp, "filterLatest: less(i,j) = key(files[i]) > key(files[j])", e.InstrPos(ci),
+		r.Check(okCmp, "filterLatest: less(i,j) = key(files[i]) > key(files[j])", e.InstrPos(so.site),
 			"the recent-history selection does not sort newest first by the time key")
 	}
 	// every non-nil return is the first min(n, len(files)) elements of the sorted slice:
@@ -565,16 +619,10 @@ func c06NewestFirst(e *Env) {
 	// under len(files) <= n
 	okSlice := true
 	nRet := 0
-	// the sorted slice (what sort.Slice is given) and the requested count (the
+	// the sorted slice (what the sort is given) and the requested count (the
 	// function's int parameter)
 	var files, nParam ssa.Value
-	for _, ci := range ir.CallsIn(fn, func(c *ssa.CallCommon) bool { return ir.IsCallTo(c, "sort.Slice", "sort.SliceStable") }) {
-		a := ir.Resolve(ci.Common().Args[0])
-		if mi, isMI := a.(*ssa.MakeInterface); isMI {
-			a = ir.Resolve(mi.X)
-		}
-		files = a
-	}
+	files = sorters[0].sorted
 	for _, p := range fn.Params {
 		if p.Type().String() == "int" {
 			nParam = p
